@@ -84,7 +84,7 @@ def gen_notes(rng):
 
 def gen(rng, tier):
     cases = []
-    n = 2200 if tier == "quick" else 60000
+    n = 2200 if tier == "quick" else 20000
     for i in range(n):
         spec = rng.choice(SPECS)
         little = spec_little(spec)
